@@ -602,6 +602,30 @@ var c05Directed = func() []c05Dir {
 			}
 		}
 	}
+	// comparisons of constructors that hold the abstracted variable
+	for _, src := range []string{`[v] == [1]`, `[v] != [1]`, `{a = v, b = "x"} == {a = 1, b = "x"}`, `[[v]] == [[1]]`, `[v, 2] == [1, 2]`, `{a = [v]} != {a = [1]}`, `[v] == [w]`, `tup(v) == tup(1)`} {
+		for _, unk := range []cty.Value{cty.DynamicVal, cty.UnknownVal(cty.Number), cty.UnknownVal(cty.Number).RefineNotNull()} {
+			out = append(out, c05Dir{Src: src, Abs: map[string]cty.Value{"v": unk, "w": n(1)}, Concs: []map[string]cty.Value{{"v": n(1)}, {"v": n(2)}, {"v": s("1")}}})
+		}
+	}
+	// a conditional between two collections of one type, from variables: the
+	// length bounds of the result must admit either arm
+	for _, src := range []string{"c ? a : b", "c ? b : a", "len(c ? a : b)", "[for x in (c ? a : b): x]", "c ? a : (c ? b : a)"} {
+		for _, abs := range []cty.Value{cty.UnknownVal(cty.List(cty.String)), cty.UnknownVal(cty.List(cty.String)).Refine().NotNull().CollectionLengthLowerBound(1).CollectionLengthUpperBound(3).NewValue(),
+			cty.UnknownVal(cty.List(cty.String)).Refine().NotNull().CollectionLengthLowerBound(2).NewValue(), cty.UnknownVal(cty.List(cty.String)).Refine().NotNull().CollectionLengthUpperBound(4).NewValue()} {
+			for _, bval := range []cty.Value{cty.ListVal([]cty.Value{s("only")}), cty.ListValEmpty(cty.String), cty.ListVal([]cty.Value{s("p"), s("q"), s("r"), s("s"), s("t")})} {
+				l := func(xs ...string) cty.Value {
+					vs := make([]cty.Value, len(xs))
+					for i, x := range xs {
+						vs[i] = s(x)
+					}
+					return cty.ListVal(vs)
+				}
+				out = append(out, c05Dir{Src: src, Abs: map[string]cty.Value{"c": ub, "a": abs, "b": bval},
+					Concs: []map[string]cty.Value{{"c": T, "a": l("x", "y", "z")}, {"c": F, "a": l("x", "y")}, {"c": T, "a": l("x", "y")}, {"c": T, "a": l("x", "y", "z", "w")}, {"c": F, "a": l("x", "y", "z")}}})
+			}
+		}
+	}
 	return out
 }()
 
@@ -625,8 +649,16 @@ func c05DirectedCase(c *core.Case, d c05Dir) {
 		for k, v := range d.Abs {
 			conc[k] = v
 		}
+		admitted := true
 		for k, v := range cm {
 			conc[k] = v
+			if a, ok := d.Abs[k]; ok && !absAdmits(a, v) {
+				admitted = false // (an instantiation outside the abstraction's refinements proves nothing)
+			}
+		}
+		if !admitted {
+			c.Count("directed:instantiation-not-admitted")
+			continue
 		}
 		cRes, cd := he.Value(ctxWith(conc))
 		c.Evals(1)
